@@ -44,6 +44,7 @@ func init() {
 			{Name: "ticket-length-in-byte-arithmetic", File: "bfe_tls/handshake_messages.go", Old: "	ticketLen := int(data[8])<<8 + int(data[9])\n", New: "	ticketLen := int(data[8]<<8 + data[9])\n", Expect: "int-wrap|newSessionTicketMsg.unmarshal"},
 			{Name: "silent-status-length-sum-hoisted", Silent: true, File: "bfe_tls/handshake_messages.go", Old: "		if uint32(len(data)) != 4+4+respLen {\n", New: "		total := respLen + 8\n		if uint32(len(data)) != total {\n"},
 			{Name: "silent-suite-vector-length-precomputed", Silent: true, File: "bfe_tls/handshake_messages.go", Old: "	y[0] = uint8(len(m.cipherSuites) >> 7)\n	y[1] = uint8(len(m.cipherSuites) << 1)\n", New: "	suiteBytes := 2 * len(m.cipherSuites)\n	y[0] = uint8(suiteBytes >> 8)\n	y[1] = uint8(suiteBytes)\n"},
+			{Name: "silent-ca-list-loop-extracted", Silent: true, File: "bfe_tls/handshake_messages.go", Old: "\tm.certificateAuthorities = nil\n\tfor len(cas) > 0 {\n\t\tif len(cas) < 2 {\n\t\t\treturn false\n\t\t}\n\t\tcaLen := uint16(cas[0])<<8 | uint16(cas[1])\n\t\tcas = cas[2:]\n\n\t\tif len(cas) < int(caLen) {\n\t\t\treturn false\n\t\t}\n\n\t\tm.certificateAuthorities = append(m.certificateAuthorities, cas[:caLen])\n\t\tcas = cas[caLen:]\n\t}\n\n\treturn len(data) <= 0", New: "\tvar casOk bool\n\tm.certificateAuthorities, casOk = splitCertificateAuthorities(cas)\n\tif !casOk {\n\t\treturn false\n\t}\n\n\treturn len(data) <= 0\n}\n\n// splitCertificateAuthorities splits a list of 16-bit length prefixed\n// distinguished names. It returns the names collected so far together with\n// false if the list is truncated.\nfunc splitCertificateAuthorities(cas []byte) ([][]byte, bool) {\n\tvar names [][]byte\n\tfor len(cas) > 0 {\n\t\tif len(cas) < 2 {\n\t\t\treturn names, false\n\t\t}\n\t\tcaLen := uint16(cas[0])<<8 | uint16(cas[1])\n\t\tcas = cas[2:]\n\n\t\tif len(cas) < int(caLen) {\n\t\t\treturn names, false\n\t\t}\n\n\t\tnames = append(names, cas[:caLen])\n\t\tcas = cas[caLen:]\n\t}\n\n\treturn names, true"},
 			{Name: "silent-guard-rewritten", Silent: true, File: "bfe_tls/handshake_messages.go", Old: "func (m *clientKeyExchangeMsg) unmarshal(data []byte) bool {\n	m.raw = data\n	if len(data) < 4 {\n		return false\n	}", New: "func (m *clientKeyExchangeMsg) unmarshal(data []byte) bool {\n	m.raw = data\n	if n := len(data); !(n >= 4) {\n		return false\n	}"},
 		},
 	})
@@ -71,6 +72,27 @@ func runC45(c *core.Ctx) {
 			proven += c45Bounds(c, m, fn)
 			arith += c45NoWrap(c, m, fn)
 			c45Joins(c, m+".unmarshal", fn)
+			// private helpers of the parser (a block of unmarshal extracted into
+			// an unexported function that only unmarshal calls) parse message
+			// bytes as well: the same three rules apply to each byte-slice
+			// parameter of each helper. Helpers are numbered in region order
+			// (their names are free to change).
+			hn := 0
+			for _, h := range c.P.Region(fn) {
+				if h == fn || h.Parent() != nil || h.Blocks == nil {
+					continue
+				}
+				hn++
+				hkey := fmt.Sprintf("%s.unmarshal:helper#%d", m, hn)
+				c.Analysed(core.FuncKey(h))
+				for _, p := range h.Params {
+					if c45IsByteSlice(p.Type()) {
+						proven += c45BoundsOn(c, m, hkey, h, p)
+					}
+				}
+				arith += c45NoWrap(c, hkey, h)
+				c45Joins(c, hkey, h)
+			}
 		}
 	}
 	c.Min("len-prefix", 15)
@@ -874,7 +896,12 @@ func c45Bounds(c *core.Ctx, m string, fn *ssa.Function) int {
 	if len(fn.Params) < 2 {
 		return 0
 	}
-	data := fn.Params[1]
+	return c45BoundsOn(c, m, m+".unmarshal", fn, fn.Params[1])
+}
+
+// c45BoundsOn checks the reads of fn that derive from its byte-slice parameter
+// data; key names the obligation (the parser itself or one of its helpers).
+func c45BoundsOn(c *core.Ctx, m, key string, fn *ssa.Function, data *ssa.Parameter) int {
 	p := &c45Prover{facts: map[*ssa.BasicBlock][]tlsFact{}}
 	sites, nProven := 0, 0
 	reviewed := map[string]int{}
@@ -960,7 +987,7 @@ func c45Bounds(c *core.Ctx, m string, fn *ssa.Function) int {
 	if len(rv) > 0 {
 		c.Note("%s.unmarshal: reads accepted by the reviewed table, not proven: %s", m, strings.Join(rv, "; "))
 	}
-	c.Check("index-bound", m+".unmarshal", fn.Pos(), len(open) == 0,
+	c.Check("index-bound", key, fn.Pos(), len(open) == 0,
 		fmt.Sprintf("%s.unmarshal: %d of %d constant-index reads / re-slices of the message bytes are not covered by a dominating length comparison (a short or crafted message makes the parser panic or read outside the message): %s", m, len(open), sites, strings.Join(open, " | ")))
 	return nProven
 }
